@@ -96,6 +96,18 @@ def case_key(inp):
     return (inp['text'], tuple(inp['pre'])) if inp.get('pre') else inp['text']
 
 
+_M64 = (1 << 64) - 1
+
+
+def _mix(i, seed):
+    x = (i + 0x9E3779B97F4A7C15 * (seed + 1)) & _M64
+    x ^= x >> 30
+    x = (x * 0xBF58476D1CE4E5B9) & _M64
+    x ^= x >> 27
+    x = (x * 0x94D049BB133111EB) & _M64
+    return x ^ (x >> 31)
+
+
 def small_cases(seed, stride, shard_no, nshards, boolean_only=True, quant_stride=None):
     """Deterministic slice of the small-scope families: yields (family, inp).
 
@@ -118,11 +130,13 @@ def small_cases(seed, stride, shard_no, nshards, boolean_only=True, quant_stride
             base += n
             continue
         kind = 'condition' if is_bool else 'expression'
-        idx = (seed + base) % st + shard_no * st
-        while idx < n:
-            m = f[idx]
-            idx += st * nshards
-            yield f.name, {'kind': kind, 'text': mast.render(m), 'this': small.SMALL_THIS, 'aliases': small.SMALL_ALIASES}
+        # a pseudo-random slice (not a strided one: the families are products, and a stride that divides the size of the
+        # fastest-varying parts would only ever visit the same few combinations of them)
+        m = st * nshards
+        for idx in range(n):
+            if m > 1 and _mix(idx + base, seed) % m != shard_no:
+                continue
+            yield f.name, {'kind': kind, 'text': mast.render(f[idx]), 'this': small.SMALL_THIS, 'aliases': small.SMALL_ALIASES}
         base += n
 
 
